@@ -152,10 +152,11 @@ func clearCheckPoint(ctx context.Context) context.Context {
 
 func newCheckPointer(
 	inputPairs, outputPairs map[string]streamConvertPair,
+	edgePairs map[string]map[string]streamConvertPair,
 	store CheckPointStore,
 ) *checkPointer {
 	return &checkPointer{
-		sc:    newStreamConverter(inputPairs, outputPairs),
+		sc:    newStreamConverter(inputPairs, outputPairs, edgePairs),
 		store: store,
 	}
 }
@@ -192,9 +193,10 @@ func (c *checkPointer) set(ctx context.Context, id string, cp *checkpoint) error
 
 // convertCheckPoint if value in checkpoint is streamReader, convert it to non-stream
 func (c *checkPointer) convertCheckPoint(cp *checkpoint, isStream bool) (err error) {
-	for _, ch := range cp.Channels {
+	for to, ch := range cp.Channels {
+		to := to
 		err = ch.convertValues(func(m map[string]any) error {
-			return c.sc.convertOutputs(isStream, m)
+			return c.sc.convertOutputs(isStream, to, m)
 		})
 		if err != nil {
 			return err
@@ -211,9 +213,10 @@ func (c *checkPointer) convertCheckPoint(cp *checkpoint, isStream bool) (err err
 
 // convertCheckPoint convert values in checkpoint to streamReader if needed
 func (c *checkPointer) restoreCheckPoint(cp *checkpoint, isStream bool) (err error) {
-	for _, ch := range cp.Channels {
+	for to, ch := range cp.Channels {
+		to := to
 		err = ch.convertValues(func(m map[string]any) error {
-			return c.sc.restoreOutputs(isStream, m)
+			return c.sc.restoreOutputs(isStream, to, m)
 		})
 		if err != nil {
 			return err
@@ -228,15 +231,33 @@ func (c *checkPointer) restoreCheckPoint(cp *checkpoint, isStream bool) (err err
 	return nil
 }
 
-func newStreamConverter(inputPairs, outputPairs map[string]streamConvertPair) *streamConverter {
+func newStreamConverter(inputPairs, outputPairs map[string]streamConvertPair, edgePairs map[string]map[string]streamConvertPair) *streamConverter {
 	return &streamConverter{
 		inputPairs:  inputPairs,
 		outputPairs: outputPairs,
+		edgePairs:   edgePairs,
 	}
 }
 
 type streamConverter struct {
 	inputPairs, outputPairs map[string]streamConvertPair
+	// edgePairs[from][to]: set for the edges whose handlers change the type of the value
+	edgePairs map[string]map[string]streamConvertPair
+}
+
+// channelPairs tells how the values parked in the channel of node `to` are converted: a value is
+// keyed by the node it comes from and has already been through the handlers of that edge, so it
+// has the start node's output type only if the edge does not convert it.
+func (s *streamConverter) channelPairs(to string, values map[string]any) map[string]streamConvertPair {
+	pairs := make(map[string]streamConvertPair, len(values))
+	for from := range values {
+		if pair, ok := s.edgePairs[from][to]; ok {
+			pairs[from] = pair
+		} else if pair, ok = s.outputPairs[from]; ok {
+			pairs[from] = pair
+		}
+	}
+	return pairs
 }
 
 func (s *streamConverter) convertInputs(isStream bool, values map[string]any) error {
@@ -247,12 +268,12 @@ func (s *streamConverter) restoreInputs(isStream bool, values map[string]any) er
 	return restore(values, s.inputPairs, isStream)
 }
 
-func (s *streamConverter) convertOutputs(isStream bool, values map[string]any) error {
-	return convert(values, s.outputPairs, isStream)
+func (s *streamConverter) convertOutputs(isStream bool, to string, values map[string]any) error {
+	return convert(values, s.channelPairs(to, values), isStream)
 }
 
-func (s *streamConverter) restoreOutputs(isStream bool, values map[string]any) error {
-	return restore(values, s.outputPairs, isStream)
+func (s *streamConverter) restoreOutputs(isStream bool, to string, values map[string]any) error {
+	return restore(values, s.channelPairs(to, values), isStream)
 }
 
 func convert(values map[string]any, convPairs map[string]streamConvertPair, isStream bool) error {
